@@ -12,7 +12,7 @@ QUICK_S = 60
 THOROUGH_S = 900
 TECHNIQUE = ('runtime monitoring: _tx_position/_tx_position_end/get_location of every model object compared with the token '
              'spans of an independent reference derivation of the same input (layout ground truth), structural span invariants')
-RULE = ('random grammars (C01 generator without suppression; Comment rule in 40%) x derived inputs with random whitespace, '
+RULE = ('random grammars (C01 generator incl. suppressed matches and keyword texts recurring in several roles; Comment rule in 40%) x derived inputs with random whitespace, '
         'CR/LF, CRLF line ends, tabs, comments between tokens (some containing U+2028, VT, NEL, FF, FS: line boundaries for str.splitlines but not newlines), leading and trailing noise; each accepted input is loaded from a string and '
         'from a file. For every object (paired with its reference node by parallel traversal): start = first matched '
         'character, end = right after the last one, slice non-empty, child inside parent, list siblings ordered and disjoint, '
@@ -51,11 +51,13 @@ def _one(ctx, i, rep=None):
     rep = rep or {'i': i}
     r = ctx.rng('g', i)
     gen_ = G(r, 0.0, pskip=0.15, pws=0.05, pcomment=0.4)
+    if i % 3 == 1:
+        gen_.preuse = 0.3
+    gen_.psupref = 0.1
     g = gen_.grammar()
     feats = P.grammar_features(g)
     if 'suppress' in feats:
-        ctx.count('grammars_skipped_suppression')
-        return
+        ctx.count('grammars_with_suppression')
     text = RP.pr_grammar(g)
     if i % 2:
         # the first rule does not start at offset 0 of the grammar text (positions in the grammar and positions in
@@ -137,13 +139,13 @@ def _one(ctx, i, rep=None):
             ctx.case((skel, P.token_kinds(s), from_file), len(out) >= 3 and nl_obj,
                      {'grammar': text, 'input': s, 'objects': len(out)} if ctx.evaluations < 2 else None)
             if bad:
-                ctx.violation(classify(ctx, g, s, refm, m, bad, fname), bad, wit, rep)
+                ctx.violation(classify_all(ctx, g, s, refm, m, bad, fname), bad, wit, rep)
     finally:
         if tmp:
             shutil.rmtree(tmp, ignore_errors=True)
 
 
-def evaluate(ctx, refm, m, s, fname, out, count=True):
+def evaluate(ctx, refm, m, s, fname, out, count=True, kept_only=False):
     """compare every object of the textX model with its counterpart in the reference model: span, nesting, get_location,
     order of list siblings. Returns (first problem or None, an object lies after a newline, objects)"""
     from textx import get_location
@@ -157,14 +159,17 @@ def evaluate(ctx, refm, m, s, fname, out, count=True):
             ctx.count('objects_checked')
         st, en = getattr(to, '_tx_position', None), getattr(to, '_tx_position_end', None)
         spans[id(to)] = (st, en)
+        # the object's text: from its first to its last matched character, suppressed matches included (kept_only: the
+        # terminals that stay in the parse tree - the recorded suppressed-edge finding)
+        ro_start, ro_end = (ro.start, ro.end) if kept_only else (getattr(ro, 'sstart', ro.start), getattr(ro, 'send', ro.end))
         cls = type(to).__name__
-        if '\n' in s[:ro.start]:
+        if '\n' in s[:ro_start]:
             nl_obj = True
             if count:
                 ctx.count('objects_after_newline')
-        if (st, en) != (ro.start, ro.end):
+        if (st, en) != (ro_start, ro_end):
             bad = '%s object: span (%r, %r) = %r, its text is (%d, %d) = %r' % (
-                cls, st, en, s[st:en] if isinstance(st, int) and isinstance(en, int) else None, ro.start, ro.end, s[ro.start:ro.end])
+                cls, st, en, s[st:en] if isinstance(st, int) and isinstance(en, int) else None, ro_start, ro_end, s[ro_start:ro_end])
             break
         if not (0 <= st < en <= len(s)):
             bad = '%s object: empty or out-of-range span (%r, %r)' % (cls, st, en)
@@ -175,8 +180,8 @@ def evaluate(ctx, refm, m, s, fname, out, count=True):
                 bad = '%s object span (%d,%d) not inside its parent span (%d,%d)' % (cls, st, en, ps, pe)
                 break
         loc = get_location(to)
-        el, ec = linecol(s, ro.start)
-        exp = {'line': el, 'col': ec, 'nchar': ro.end - ro.start, 'filename': os.path.abspath(fname) if fname else None}
+        el, ec = linecol(s, ro_start)
+        exp = {'line': el, 'col': ec, 'nchar': ro_end - ro_start, 'filename': os.path.abspath(fname) if fname else None}
         if count:
             ctx.count('locations_checked')
         if loc != exp:
@@ -218,6 +223,43 @@ def classify(ctx, g, s, refm, m, bad, fname):
     if RP.dump_spans(refm2) == RP.dump_spans(refm):
         return None
     return 'dangling-separator'
+
+
+def spec_spans(v):
+    out = []
+
+    def walk(x):
+        if isinstance(x, RP.RObj):
+            out.append((x.cls, getattr(x, 'sstart', x.start), getattr(x, 'send', x.end)))
+            for a in x.attrs.values():
+                walk(a)
+        elif isinstance(x, list):
+            for y in x:
+                walk(y)
+    walk(v)
+    return out
+
+
+def classify_all(ctx, g, s, refm, m, bad, fname):
+    key = classify(ctx, g, s, refm, m, bad, fname)
+    if key:
+        return key
+    # suppressed matches at the edge of an object are outside its recorded span (suppressed matches leave no parse-tree
+    # node): explained by that only if EVERYTHING agrees with the reference restricted to the kept terminals (alone or
+    # together with the dangling separator), and the two readings differ for some object of this model
+    cands = [refm]
+    try:
+        tree = RP.RefParser(g, s, True, None, emulate=('dangling-separator',)).run()
+        cands.append(RP.Builder(g, True, False).value(tree))
+    except Exception:
+        pass
+    for rm in cands:
+        out = []
+        pairs(rm, m, out)
+        bad2, _nl, _n = evaluate(ctx, rm, m, s, fname, out, count=False, kept_only=True)
+        if bad2 is None and spec_spans(rm) != RP.dump_spans(rm):
+            return 'suppressed-edge-outside-span'
+    return None
 
 
 def run(ctx):
